@@ -9,7 +9,7 @@ sys.path.insert(0, os.path.join(V, "lib")); sys.path.insert(0, os.path.join(V, "
 import vlib
 TABLE = {"C01": ("ops_h", "Trace_HElem"), "C12": ("ops_h", "Trace_HDir"), "C03": ("ops_h,ops_sd", "Trace_SDArray"), "C04": ("ops_h,ops_sd", "Trace_SDArray"),
          "C07": ("ops_h,ops_v", "Trace_VData"), "C08": ("ops_h,ops_v", "Trace_VGroup"), "C09": ("ops_h,ops_gr", "Trace_GRImage"),
-         "C10": ("ops_attr", "Trace_Attrs"), "C11": ("ops_an", "Trace_Annot"), "C05": ("ops_h,ops_comp", "Trace_Comp"), "C14": ("ops_ro", "Trace_ReadOnly"), "C20": ("ops_lim", "Trace_Limits")}
+         "C10": ("ops_attr", "Trace_Attrs"), "C11": ("ops_an", "Trace_Annot"), "C05": ("ops_h,ops_comp", "Trace_Comp"), "C14": ("ops_ro", "Trace_ReadOnly"), "C20": ("ops_lim", "Trace_Limits"), "C15": ("ops_io", "Trace_Interop")}
 
 
 def main():
